@@ -456,8 +456,16 @@ impl<P: Prop> Exec<P> {
                 };
                 let tail = w.stderr_tail();
                 drop(w);
-                if tail.contains("memory allocation of") {
-                    return Outcome::Infra(format!("worker aborted on an allocation failure (resource outcome)\n{}", abbreviate(&tail, 1000)));
+                if let Some(pos) = tail.find("memory allocation of ") {
+                    // The generators keep every structure far below the memory of the machine, so a failed request of a
+                    // few gigabytes is a resource outcome. A request of 2^44 bytes or more cannot come from the size of a
+                    // generated case: the code under test computed an absurd amount (e.g. it trusted the upper bound of an
+                    // iterator's size hint) and took the process down with it.
+                    let n: u128 = tail[pos + "memory allocation of ".len()..].chars().take_while(|c| c.is_ascii_digit()).collect::<String>().parse().unwrap_or(0);
+                    if n < (1u128 << 44) {
+                        return Outcome::Infra(format!("worker aborted on an allocation failure (resource outcome)\n{}", abbreviate(&tail, 1000)));
+                    }
+                    return Outcome::Fail(Fail::new("crash:absurd-allocation", format!("the process executing this case aborted because the code under test asked for {} bytes of memory (the case itself is small); its last report:\n{}", n, abbreviate(&tail, 2000))));
                 }
                 if status == "SIGKILL" {
                     // most likely the OOM killer or an external kill: resource outcome, not a verdict
